@@ -146,7 +146,7 @@ def run(ctx):
                 from sklearn.base import clone
                 a = qs.query(X=X, y=y, batch_size=bs, **kwargs)
                 b = clone(qs).query(X=X, y=y, batch_size=bs, **kwargs)
-                if not np.array_equal(np.asarray(a), np.asarray(b)) and name not in GLOBAL_RNG_DEPENDENT:
+                if not np.array_equal(np.asarray(a), np.asarray(b)) and name.split("{")[0] not in GLOBAL_RNG_DEPENDENT:
                     ctx.violation(name, "clone_differs", f"original selects {np.asarray(a).tolist()}, clone {np.asarray(b).tolist()}", rc,
                                   what=f"a clone of {name} taken after query behaves differently from the original")
             except Exception:
